@@ -16,6 +16,7 @@
 -/
 import TshVerif.Lemmas.SemBStraight
 import TshVerif.Lemmas.SemBCtl
+import TshVerif.Lemmas.SemBLoop
 
 namespace Tsh.C05S
 open Tsh Tsh.Tr Tsh.Batch Tsh.Sem Tsh.SemB
@@ -137,5 +138,79 @@ theorem batch_preserves_conditional_semantics_partial (p : Program) (hf : Src.fr
       · simp at hr
   · simp at hc
   · simp at hc
+
+/-! ### the whole scalar fragment: loops, break, continue -/
+
+/-- **The Batch script means what the program means (scalar fragment).**  For every program `p` of the scalar fragment -
+    integer / boolean / string expressions, definitions and assignments (single or simultaneous), print, panic,
+    if / else-if / else chains, `for` loops with init / condition / increment, `break`, `continue`, nested to any depth
+    (`simpleLoopsStmts`: the increment of a loop is a definition or an assignment, as the grammar has it):
+    the emitted script is the start code, the helper routines, NO function block, the lines of a block tree `cmds` and the
+    two end lines.  The tree (`Sem/CmdTree`) has if-chains with their end label `_i<k>`, loops number `n` with head label
+    `_f<n>`, end label `_e<n>` and first-round flag `_fv<n>` tested by `if defined`, and `break` / `continue` as `goto` to
+    the labels of the INNERMOST enclosing loop (by construction of `flats`).  Whenever the 32-bit source semantics runs `p`
+    to an outcome `o` with printed lines `out` - whatever the number of rounds of any loop - the tree runs under the
+    structured reading of cmd.exe's rules (`ExecBs`) from the store the start code leaves to the same outcome with the
+    same printed lines; at a normal end the exit code variable still holds 0.
+    The counterpart of `C01.bash_preserves_scalar_semantics` for the other target.  Not covered: functions, slices,
+    string operations (C02 / C03 fragments), `switch` and `range` (known findings). -/
+theorem batch_preserves_scalar_semantics (p : Program) (hf : Src.fragStmts p = true) (hn : simpleLoopsStmts p = true)
+    (ls : List BLine) (hc : compile p = .ok ls) :
+    ∃ (st : St) (cmds : List BCmd),
+      ls = st.startCode.reverse ++ helperLines st ++ flats none cmds ++ [.label "end", .raw "endlocal & exit /B %_e%"] ∧
+      ∀ fuel o out, Src32.runProgram fuel p = some (o, out) →
+        ∃ c' : Cfg, ExecBs cmds ⟨startStore, []⟩ o c' ∧ c'.out = out ∧ (o = .normal → c'.ρ "_e" = "0") := by
+  unfold compile at hc
+  split at hc
+  · rename_i u s hrun
+    simp only [Res.ok.injEq] at hc
+    unfold evalProgram at hrun
+    obtain ⟨_, s1, h1, hrun⟩ := bindB_ok hrun
+    obtain ⟨_, s2, h2, h3⟩ := bindB_ok hrun
+    have e3 : s = s2 := by
+      have : (pure () : BM Unit) s2 = .ok (u, s) := h3
+      exact (pureB_ok this).2
+    have hs1 : s1.funcs = [] ∧ s1.globalCode = [] ∧ s1.functionsCode = [] ∧ s1.fors = [] ∧ s1.endLabels = [] := by
+      have : programStart ({} : St) = .ok ((), s1) := h1
+      simp [programStart, addStartLine, Tr.modify, bind] at this
+      rw [← this]; exact ⟨rfl, rfl, rfl, rfl, rfl⟩
+    obtain ⟨cmds, n, ad, sim⟩ := stmtsL_sem none p hf hn s1 s2 hs1.1 ⟨hs1.2.2.2.1, hs1.2.2.2.2⟩ h2
+    refine ⟨s, cmds, ?_, ?_⟩
+    · rw [← hc, e3]
+      have hcode : s2.globalCode.reverse = flats none cmds := by
+        rw [ad.code, hs1.2.1, List.append_nil, List.reverse_reverse]
+      have hfc : s2.functionsCode = [] := by rw [ad.fcode]; exact hs1.2.2.1
+      simp [dumpLines, hcode, hfc]
+    · intro fuel o out hr
+      unfold Src32.runProgram at hr
+      split at hr
+      · rename_i o' c' hr'
+        simp only [Option.some.injEq, Prod.mk.injEq] at hr
+        obtain ⟨rfl, rfl⟩ := hr
+        obtain ⟨ρ', ex, post⟩ := sim fuel Src.SCfg.init o' c' hr' startStore (by intro x v hx; simp [Src.SCfg.init] at hx)
+        refine ⟨⟨ρ', c'.out⟩, ex, rfl, fun ho => ?_⟩
+        show ρ' "_e" = "0"
+        rw [(post (by intro k; rw [ho]; simp)).2.1]; exact set_same _ _ _
+      · simp at hr
+  · simp at hc
+  · simp at hc
+
+/-! non-vacuity: a program with a nested loop, `break`, `continue`, an if / else-if / else chain and a panic is in the fragment, runs in
+    the source semantics, and its script runs in the line-level machine of `Sem/Cmd` to the same printed lines and exit code -/
+private def iv : Var := { name := "i", vt := ⟨.int, false⟩, global := true, pub := false }
+private def jv : Var := { name := "j", vt := ⟨.int, false⟩, global := true, pub := false }
+private def loopSample : Program :=
+  [ .forS (some (.varDef [iv] [.intLit 0])) (.compare "<" (.varEval iv) (.intLit 4)) (some (.assign [iv] [.binary "+" (.varEval iv) (.intLit 1)]))
+      [ .ifS (.compare "==" (.varEval iv) (.intLit 1)) [.cont] [(.compare "==" (.varEval iv) (.intLit 3), [.brk])] [.print [.varEval iv]],
+        .forS (some (.varDef [jv] [.intLit 0])) (.boolLit true) (some (.assign [jv] [.binary "+" (.varEval jv) (.intLit 1)]))
+          [ .ifS (.compare ">" (.varEval jv) (.varEval iv)) [.brk] [] [],
+            .print [.strLit "j", .varEval jv] ] ],
+    .panic (.strLit "stop") ]
+
+example : Src.fragStmts loopSample = true ∧ simpleLoopsStmts loopSample = true := by decide
+#guard Src32.runProgram 100 loopSample == some (.exit 1, ["0", "j 0", "2", "j 0", "j 1", "j 2", "panic: stop"])
+#guard (match compile loopSample with
+  | .ok ls => SemB.run 10000 ls == some (.exit 1, ["0", "j 0", "2", "j 0", "j 1", "j 2", "panic: stop"])
+  | _ => false)
 
 end Tsh.C05S
